@@ -30,6 +30,7 @@ type rtCall struct {
 	err    error
 	done   bool
 	t0, t1 time.Time
+	ctrl   time.Duration // how late a plain timer of DialTimeout, started with the call, fired (machine load)
 }
 
 type fakeRT struct {
@@ -166,6 +167,11 @@ func (e *routerEnv) start(k int, form string) {
 	e.calls[k] = r
 	e.order = append(e.order, k)
 	e.mu.Unlock()
+	time.AfterFunc(routerDialTimeout, func() {
+		e.mu.Lock()
+		r.ctrl = time.Since(r.t0)
+		e.mu.Unlock()
+	})
 	e.wg.Add(1)
 	go func() {
 		defer e.wg.Done()
@@ -366,6 +372,7 @@ func runRouterScenario(sc routerScenario) *routerResult {
 	for _, a := range sc.Actions {
 		f := strings.Fields(a)
 		rec := a
+		listBefore, _, _, _, _, _, _ := e.c.VerifClientSnapshot()
 		switch f[0] {
 		case "update":
 			ts := []string{}
@@ -488,6 +495,18 @@ func runRouterScenario(sc routerScenario) *routerResult {
 			continue
 		}
 		time.Sleep(2 * time.Millisecond)
+		if f[0] != "wait" && f[0] != "storm" && f[0] != "sleep" && f[0] != "expire" {
+			// a detector pass that happens to fall inside another action rebuilds the list behind the
+			// script's back: what follows depends on its phase (monitor-only from here on)
+			listAfter, _, _, _, _, _, _ := e.c.VerifClientSnapshot()
+			want := strings.Join(listBefore, ",")
+			if f[0] == "update" {
+				want = ""
+			}
+			if strings.Join(listAfter, ",") != want {
+				res.timing = true
+			}
+		}
 		res.actions = append(res.actions, rec)
 		res.obs = append(res.obs, e.observe())
 	}
@@ -736,7 +755,11 @@ func checkRouterTimed(sc routerScenario, r *routerResult) []connVerdict {
 			add("C18", "nobody-stranded", "C18/stranded/"+c.form, fmt.Sprintf("call %d (%s) had not returned at the end of the scenario (DialTimeout %v)", k, c.form, routerDialTimeout))
 			continue
 		}
-		if d := c.t1.Sub(c.t0); d > routerDialTimeout+400*time.Millisecond {
+		limit := routerDialTimeout
+		if c.ctrl > limit {
+			limit = c.ctrl // a plain timer of the same length fired this late: the machine, not the library
+		}
+		if d := c.t1.Sub(c.t0); d > limit+400*time.Millisecond {
 			add("C18", "bounded-wait", "C18/waited-too-long/"+c.form, fmt.Sprintf("call %d (%s) returned after %v, DialTimeout is %v", k, c.form, d.Round(time.Millisecond), routerDialTimeout))
 		}
 	}
